@@ -1148,9 +1148,15 @@ func (envs *Manager) handleDeviceEvent(evt event.DeviceEvent) {
 				WithField("envState", env.CurrentState()).
 				WithField(infologger.Level, infologger.IL_Support).
 				Debug("received TASK_INTERNAL_ERROR event from task, trying to stop the run")
-			if env.CurrentState() == "RUNNING" {
-				go func() {
-					t.GetParent().UpdateState(sm.ERROR)
+			// The task is in ERROR whatever the environment is doing, and its role says so (for a critical
+			// task the workflow state watcher then takes the environment to ERROR, as for any other failure);
+			// only a run in progress is stopped.
+			running := env.CurrentState() == "RUNNING"
+			go func() {
+				if parent := t.GetParent(); parent != nil { // nil: the task has been released meanwhile
+					parent.UpdateState(sm.ERROR)
+				}
+				if running {
 					if !t.GetTraits().Critical {
 						// the state of a non-critical task does not affect the environment
 						return
@@ -1162,8 +1168,8 @@ func (envs *Manager) handleDeviceEvent(evt event.DeviceEvent) {
 							WithError(err).
 							Error("cannot stop run after END_OF_STREAM event")
 					}
-				}()
-			}
+				}
+			}()
 		}
 
 	}
